@@ -237,9 +237,10 @@ Proof.
   assert (Forall piece_ok (ps ++ [(b, off, len)])) as Hps.
   { apply Forall_app; split; [|repeat constructor; exact Hp].
     destruct first; [inversion E; constructor|]. rewrite E in Z3; exact Z3. }
-  destruct last; cbn; (apply ok_upd; [|exact H]); intros n Hn; (apply node_ok_sr; [|exact Hn]);
-    destruct Hn as (_ & _ & _ & _ & _ & (Y1 & Y2 & Y3)).
+  destruct last; [destruct (snap_ahead _ _)|]; cbn; (apply ok_upd; [|exact H]); intros n Hn;
+    (apply node_ok_sr; [|exact Hn]); destruct Hn as (_ & _ & _ & _ & _ & (Y1 & Y2 & Y3)).
   - split; [apply assemble_snap_ok; exact Hps|]. split; [exact Y2 | exact I].
+  - split; [exact Y1|]. split; [exact Y2 | exact I].
   - split; [exact Y1|]. split; [exact Y2 | exact Hps].
 Qed.
 
